@@ -1163,11 +1163,249 @@ def _n68(fn):
     return changed
 
 
+def _n95(fn):
+    """N95 a parameter of a nested function that has the name of a local of the enclosing function (shadowing: two different
+    variables) is renamed inside the nested function - the passes that follow reason about names per function"""
+    changed = False
+    nested = [g for g in ast.walk(fn) if g is not fn and isinstance(g, ast.FunctionDef)]
+    if not nested:
+        return False
+    inner_ids = {id(x) for g in nested for x in ast.walk(g)}
+    outer_locals = {n.id for n in ast.walk(fn) if isinstance(n, ast.Name) and not isinstance(n.ctx, ast.Load) and id(n) not in inner_ids}
+    for g in nested:
+        if any(isinstance(x, (ast.FunctionDef, ast.Lambda, ast.ClassDef, ast.Global, ast.Nonlocal)) and x is not g for x in ast.walk(g)):
+            continue
+        for a in list(g.args.args) + list(g.args.kwonlyargs):
+            if a.arg in outer_locals:
+                new = '%s__%s' % (a.arg, g.name.strip('_'))
+                for x in ast.walk(g):
+                    if isinstance(x, ast.Name) and x.id == a.arg:
+                        x.id = new
+                a.arg = new
+                changed = True
+    return changed
+
+
+def _n94(fn, counter):
+    """N94 `for x in chain.from_iterable(XS): BODY` / `for x in chain(*XS): BODY` (no break, no else) -> the two loops
+    `for g in XS: for x in g: BODY`"""
+    changed = False
+    for lo in [n for n in ast.walk(fn) if isinstance(n, ast.For)]:
+        it = lo.iter
+        if not isinstance(it, ast.Call) or it.keywords or len(it.args) != 1 or lo.orelse:
+            continue
+        f = it.func
+        xs = None
+        if isinstance(f, ast.Attribute) and f.attr == 'from_iterable' and (
+                (isinstance(f.value, ast.Name) and f.value.id == 'chain') or (isinstance(f.value, ast.Attribute) and f.value.attr == 'chain')):
+            xs = it.args[0]
+        elif ((isinstance(f, ast.Name) and f.id == 'chain') or (isinstance(f, ast.Attribute) and f.attr == 'chain')) \
+                and isinstance(it.args[0], ast.Starred):
+            xs = it.args[0].value
+        if xs is None:
+            continue
+        def has_break(stmts):
+            for st in stmts:
+                for n in ast.walk(st):
+                    if isinstance(n, ast.Break):
+                        return True
+            return False
+        if has_break(lo.body):
+            continue
+        counter[0] += 1
+        g = 'group__n94_%d' % counter[0]
+        inner = ast.For(lo.target, ast.Name(g, ast.Load()), lo.body, [], None)
+        lo.target = ast.Name(g, ast.Store())
+        lo.iter = xs
+        lo.body = [inner]
+        ast.copy_location(inner, lo)
+        ast.fix_missing_locations(lo)
+        changed = True
+    return changed
+
+
+def _n93(fn):
+    """N93 the ask-forgiveness form of a guarded table lookup:
+         try: v = D[K]                         if K in D: v = D[K]; ELSE
+         except KeyError: HANDLER        ->    else: HANDLER
+         [else: ELSE]
+    D and K attribute chains / names / constant subscripts (evaluating them raises nothing and has no effect), the handler does not
+    name the exception, no finally.  D is read as a plain mapping (`D[K]` raises KeyError exactly when K is not in D)."""
+    def chain(e):
+        while isinstance(e, ast.Attribute):
+            e = e.value
+        return isinstance(e, ast.Name)
+
+    def key_ok(e):
+        if isinstance(e, ast.Constant) or chain(e):
+            return True
+        return isinstance(e, ast.Subscript) and chain(e.value) and isinstance(e.slice, (ast.Constant, ast.Slice)) and False
+    changed = False
+    for holder, fld, blk in list(_blocks(fn)):
+        for i, st in enumerate(list(blk)):
+            if not (isinstance(st, ast.Try) and not st.finalbody and len(st.handlers) == 1 and len(st.body) == 1):
+                continue
+            h = st.handlers[0]
+            if not (isinstance(h.type, ast.Name) and h.type.id == 'KeyError' and h.name is None):
+                continue
+            b = st.body[0]
+            if not (isinstance(b, ast.Assign) and len(b.targets) == 1 and isinstance(b.targets[0], ast.Name)
+                    and isinstance(b.value, ast.Subscript) and chain(b.value.value) and key_ok(b.value.slice)):
+                continue
+            if any(isinstance(n, ast.Raise) and n.exc is None for x in h.body for n in ast.walk(x)):
+                continue
+            test = ast.Compare(copy.deepcopy(b.value.slice), [ast.In()], [copy.deepcopy(b.value.value)])
+            new = ast.If(test, [b] + list(st.orelse), list(h.body))
+            ast.copy_location(new, st)
+            ast.fix_missing_locations(new)
+            blk[blk.index(st)] = new
+            changed = True
+    return changed
+
+
+def _n92(fn):
+    """N92 a local bound to a conditional expression and read exactly once, as the callee of a call in the statement that follows:
+         v = A if C else B if D else E; S(v(..))   ->   if C: v = A  elif D: v = B  else: v = E;  S(v(..))
+    (N15 then sinks S into the arms, N5 folds the temporaries: `dumper.add_representer(class_, (A if C else B)(class_))` becomes
+    the if/elif ladder of calls)"""
+    changed = False
+    for holder, fld, blk in list(_blocks(fn)):
+        i = 0
+        while i + 1 < len(blk):
+            st = blk[i]
+            if isinstance(st, ast.Assign) and len(st.targets) == 1 and isinstance(st.targets[0], ast.Name) and isinstance(st.value, ast.IfExp):
+                v = st.targets[0].id
+                occ = [n for n in ast.walk(fn) if isinstance(n, ast.Name) and n.id == v]
+                nxt = [n for n in ast.walk(blk[i + 1]) if isinstance(n, ast.Name) and n.id == v]
+                called = any(isinstance(c, ast.Call) and c.func is nxt[0] for c in ast.walk(blk[i + 1])) if len(nxt) == 1 else False
+                if len(occ) == 2 and len(nxt) == 1 and isinstance(nxt[0].ctx, ast.Load) and called \
+                        and not isinstance(blk[i + 1], (ast.For, ast.While, ast.FunctionDef, ast.ClassDef, ast.With, ast.Try)):
+                    def ladder(e):
+                        if isinstance(e, ast.IfExp):
+                            return [ast.If(e.test, ladder(e.body), ladder(e.orelse))]
+                        return [ast.Assign([ast.Name(v, ast.Store())], e, None)]
+                    new = ladder(st.value)
+                    for x in new:
+                        ast.copy_location(x, st)
+                        ast.fix_missing_locations(x)
+                    blk[i:i + 1] = new
+                    changed = True
+            i += 1
+    return changed
+
+
+def _n90(fn):
+    """N90 a loop over a one-`for`, condition-free comprehension (possibly under `enumerate`) with a pure element:
+         for i, v in enumerate((E for T in XS)): BODY   ->   for i, T in enumerate(XS): v = E; BODY
+         for v in [E for T in XS]: BODY                 ->   for T in XS: v = E; BODY
+    the element is computed as the loop goes instead of up front (list) - the same thing when computing it has no effect; T's names
+    must not occur in BODY or after the loop"""
+    from .normalize import _PURE_CALLS
+
+    def pure(e):
+        for c in ast.walk(e):
+            if isinstance(c, (ast.Yield, ast.YieldFrom, ast.Await, ast.NamedExpr, ast.Lambda)):
+                return False
+            if isinstance(c, ast.Call) and not (isinstance(c.func, ast.Name) and c.func.id in _PURE_CALLS):
+                return False
+        return True
+    changed = False
+    all_names = [n.id for n in ast.walk(fn) if isinstance(n, ast.Name)]
+    for lo in [n for n in ast.walk(fn) if isinstance(n, ast.For)]:
+        it = lo.iter
+        enum = isinstance(it, ast.Call) and isinstance(it.func, ast.Name) and it.func.id == 'enumerate' and len(it.args) == 1 and not it.keywords
+        comp = it.args[0] if enum else it
+        if not isinstance(comp, (ast.GeneratorExp, ast.ListComp)) or len(comp.generators) != 1:
+            continue
+        g = comp.generators[0]
+        if g.ifs or g.is_async or not pure(comp.elt):
+            continue
+        if enum and not (isinstance(lo.target, ast.Tuple) and len(lo.target.elts) == 2):
+            continue
+        tnames = {n.id for n in ast.walk(g.target) if isinstance(n, ast.Name)}
+        inside = sum(1 for n in ast.walk(comp) if isinstance(n, ast.Name) and n.id in tnames)
+        if sum(1 for x in all_names if x in tnames) != inside:
+            continue            # the comprehension's own names are used elsewhere in the function
+        vtarget = lo.target.elts[1] if enum else lo.target
+        assign = ast.Assign([vtarget], comp.elt, None)
+        if enum:
+            lo.target = ast.Tuple([lo.target.elts[0], g.target], ast.Store())
+            it.args = [g.iter]
+        else:
+            lo.target = g.target
+            lo.iter = g.iter
+        for n in ast.walk(lo.target):
+            if hasattr(n, 'ctx'):
+                n.ctx = ast.Store()
+        ast.copy_location(assign, lo)
+        lo.body.insert(0, assign)
+        ast.fix_missing_locations(lo)
+        changed = True
+    return changed
+
+
+def _n91(fn):
+    """N91 a loop that pairs a list with a run of flags - True for the first len(XS) - M elements, False for the rest - is the loop
+    over the positions that compares the position with that bound:
+         for x, r in zip(XS, [True] * (len(XS) - M) + [False] * M): BODY
+         for x, r in zip(XS, chain(repeat(True, len(XS) - M), repeat(False, M))): BODY
+      -> for i, x in enumerate(XS): r = i < len(XS) - M; BODY
+    (for every integer M: a negative count gives an empty run, zip stops with XS)"""
+    changed = False
+    taken = {n.id for n in ast.walk(fn) if isinstance(n, ast.Name)}
+    for lo in [n for n in ast.walk(fn) if isinstance(n, ast.For)]:
+        it = lo.iter
+        if not (isinstance(it, ast.Call) and isinstance(it.func, ast.Name) and it.func.id == 'zip' and len(it.args) == 2 and not it.keywords
+                and isinstance(lo.target, ast.Tuple) and len(lo.target.elts) == 2 and isinstance(lo.target.elts[1], ast.Name)):
+            continue
+        xs, flags = it.args
+        runs = None
+        if isinstance(flags, ast.BinOp) and isinstance(flags.op, ast.Add):
+            def run(e):
+                if isinstance(e, ast.BinOp) and isinstance(e.op, ast.Mult):
+                    for a, b in ((e.left, e.right), (e.right, e.left)):
+                        if isinstance(a, ast.List) and len(a.elts) == 1 and isinstance(a.elts[0], ast.Constant) and isinstance(a.elts[0].value, bool):
+                            return a.elts[0].value, b
+                return None
+            runs = (run(flags.left), run(flags.right))
+        elif isinstance(flags, ast.Call) and isinstance(flags.func, (ast.Name, ast.Attribute)) and not flags.keywords and len(flags.args) == 2 \
+                and (flags.func.id if isinstance(flags.func, ast.Name) else flags.func.attr) == 'chain':
+            def run(e):
+                if isinstance(e, ast.Call) and not e.keywords and len(e.args) == 2 \
+                        and (e.func.id if isinstance(e.func, ast.Name) else e.func.attr if isinstance(e.func, ast.Attribute) else '') == 'repeat' \
+                        and isinstance(e.args[0], ast.Constant) and isinstance(e.args[0].value, bool):
+                    return e.args[0].value, e.args[1]
+                return None
+            runs = (run(flags.args[0]), run(flags.args[1]))
+        if not runs or runs[0] is None or runs[1] is None or runs[0][0] is not True or runs[1][0] is not False:
+            continue
+        n_true, n_false = runs[0][1], runs[1][1]
+        want = 'len(%s) - %s' % (ast.unparse(xs), ast.unparse(n_false) if isinstance(n_false, (ast.Name, ast.Call, ast.Attribute, ast.Constant))
+                                 else '(%s)' % ast.unparse(n_false))
+        if ast.unparse(n_true) != want:
+            continue
+        ix = 'i__pos'
+        while ix in taken:
+            ix += '_'
+        taken.add(ix)
+        r_name = lo.target.elts[1]
+        assign = ast.Assign([ast.Name(r_name.id, ast.Store())], ast.Compare(ast.Name(ix, ast.Load()), [ast.Lt()], [n_true]), None)
+        lo.target = ast.Tuple([ast.Name(ix, ast.Store()), lo.target.elts[0]], ast.Store())
+        lo.iter = ast.Call(ast.Name('enumerate', ast.Load()), [xs], [])
+        ast.copy_location(assign, lo)
+        lo.body.insert(0, assign)
+        ast.fix_missing_locations(lo)
+        changed = True
+    return changed
+
+
 def late_rewrites(tree: ast.Module) -> bool:
     """rewrites whose instances only appear after the statement-level folding of the second pass"""
     changed = False
     for fn in [n for n in ast.walk(tree) if isinstance(n, (ast.FunctionDef, ast.AsyncFunctionDef))]:
         changed |= bool(_n68(fn))
+        changed |= bool(_n90(fn))
+        changed |= bool(_n91(fn))
     return changed
 
 
@@ -1889,7 +2127,11 @@ def pre_normalize(tree: ast.Module) -> ast.Module:
                 _n62(fn, isinstance(holder, ast.ClassDef) and not any(isinstance(d, ast.Name) and d.id == 'staticmethod' for d in fn.decorator_list),
                      counter)
     for fn in [n for n in ast.walk(tree) if isinstance(n, (ast.FunctionDef, ast.AsyncFunctionDef))]:
+        _n95(fn)
         _n83(fn)
+        _n94(fn, counter)
+        _n93(fn)
+        _n92(fn)
         _n89(fn, counter)
         _n87(fn)
         _n88(fn)
